@@ -111,6 +111,7 @@ type btrack struct {
 	incarnAcc  int
 	reinjected int
 	absentEpoch int
+	lostPending bool // in the store but no longer flagged pending (reported once under C05); nothing else is judged for it
 	dtlsrJudged bool
 	spray       *sprayState
 	subSeq      int // order of injection
